@@ -622,7 +622,7 @@ pub fn run(rep: &mut Report, tier: &str, seed: u64, shard: (u32, u32), replay: O
         return;
     }
     let mut rng = StdRng::seed_from_u64(seed ^ 0xc13 ^ ((shard.0 as u64) << 40));
-    let n: u64 = if tier == "thorough" { 1_500_000 } else { 60_000 };
+    let n: u64 = if tier == "thorough" { 1_500_000 } else { 200_000 };
     let budget = Budget::new(n, if tier == "thorough" { 600.0 } else { 20.0 });
     let mut i = 0;
     while budget.left(i) {
